@@ -40,7 +40,8 @@ class Module(object):
 
 
 class Repo(object):
-    def __init__(self, root='/repo', package='playback'):
+    def __init__(self, root=None, package='playback'):
+        root = root or os.environ.get('PYVC_REPO', '/repo')
         self.root = root
         self.modules = {}
         self.classes = {}      # class name -> (module name, ClassDef)     (class names are unique in this repository)
